@@ -40,7 +40,7 @@ def points(tier):
     return out
 
 
-def check_point(kind, lon, lat, depths, pix_depths, planetary, part):
+def check_point(kind, lon, lat, depths, pix_depths, planetary, part, deep=()):
     from toasty import toast
     from toasty.pyramid import Pos
 
@@ -106,6 +106,27 @@ def check_point(kind, lon, lat, depths, pix_depths, planetary, part):
                 if pos[0] >= 1 and not tg.contains(tg.single(pos[0], pos[1], pos[2], planetary)[0], p, tol=1e-9):
                     part.violation("tile/not-periodic/coordsys=%s" % csn, "%r depth %d: answers for shifted longitudes %r" % (base, d, per_shift), dict(base, depth=d))
                     break
+    # deep descents (tolerances that are absolute rather than relative to the tile size only show here)
+    for d in deep:
+        cfg = dict(base, depth=d, lon_shift=0.0)
+        part.case(nontrivial=True)
+        part.count("deep_lookups")
+        try:
+            t = toast.toast_tile_for_point(d, lat, lon, coordsys=cs)
+        except Exception as e:
+            part.violation("tile/raises:%s/coordsys=%s" % (type(e).__name__, csn), "%r: %r" % (cfg, e), cfg)
+            continue
+        pos = tuple(t.pos)
+        if pos[0] != d or not (0 <= pos[1] < 2**d and 0 <= pos[2] < 2**d):
+            part.violation("tile/bad-position/coordsys=%s" % csn, "%r: returned %r" % (cfg, pos), cfg)
+            continue
+        c, _inc = tg.single(d, pos[1], pos[2], planetary)
+        # "up to rounding on shared edges": a great-circle side of length w between two unit vectors in double
+        # precision is only resolved to about ulp / w radians, which at depth >= 23 is a visible part of a tile
+        w = (np.pi / 2) / 2**d
+        tol = 1e-3 * w + 8 * np.finfo(float).eps / w
+        if not tg.contains(c, p, tol=tol):
+            part.violation("tile/containment/coordsys=%s/deep" % csn, "%r: the depth-%d tile %r returned does not contain the point (tolerance %.3g rad = %.3g tile widths)" % (cfg, d, pos, tol, tol / w), cfg)
     # pixel clause
     if abs(lat) <= np.pi / 2 - np.radians(1.0):
         for d in pix_depths:
@@ -152,7 +173,8 @@ def _work(job):
             pd = pix if sel == 0 else []
         else:
             pd = pix if sel in (0, 2) else [3]
-        check_point(kind, lon, lat, depths, pd, planetary, part)
+        deep = ((14, 23) if sel == 1 else (20, 24)) if (tier == "thorough" or sel in (1, 3)) else ()
+        check_point(kind, lon, lat, depths, pd, planetary, part, deep)
         if k == 3:
             part.sample({"lon": lon, "lat": lat, "kind": kind, "coordsys": "planetary" if planetary else "astronomical", "depths": depths})
     return part
@@ -163,10 +185,10 @@ def run(tier, seed):
     rep.rule = (
         "every vertex of the level-%d TOAST lattice (corners, edge midpoints, centres of coarser tiles: edges, diamond, seam, poles) + a 24x13 "
         "grid + near-pole/seam points, each at 4 longitude shifts, depths 0..%d, both coordinate systems; pixel clause at depths 1,3,6 for "
-        "points >= 1 degree from the poles; non-trivial = lattice/edge point or shifted longitude"
+        "points >= 1 degree from the poles; deep descents to depth 14/23 or 20/24 for half of the points (containment to 1e-3 tile widths plus the double-precision resolution 8 ulp / width of a tile side); non-trivial = lattice/edge point or shifted longitude"
         % (4 if tier == "quick" else 6, 6 if tier == "quick" else 8)
     )
-    rep.assumptions = ["points within 1e-9 of a shared edge may resolve to either adjacent tile", "continuum between lattice points is not covered"]
+    rep.assumptions = ["points within 1e-9 of a shared edge may resolve to either adjacent tile", "continuum between lattice points is not covered", "'up to rounding on shared edges' is read, for deep tiles, as the double-precision resolution of a side of length w: 8 ulp / w radians (0.005 tile widths at depth 20, 0.2 at depth 24)"]
     pts = rng_order(points(tier), seed)
     n = par.ncores()
     jobs = []
@@ -180,7 +202,8 @@ def run(tier, seed):
 def replay(payload):
     r = payload["replay"]
     part = Part()
-    check_point(r.get("kind", "replay"), r["lon"], r["lat"], [r["depth"]] if not r.get("pixel") else [], [r["depth"]] if r.get("pixel") else [], r["coordsys"] == "planetary", part)
+    deep = (r["depth"],) if (not r.get("pixel") and r["depth"] > 9) else ()
+    check_point(r.get("kind", "replay"), r["lon"], r["lat"], [r["depth"]] if not (r.get("pixel") or deep) else [], [r["depth"]] if r.get("pixel") else [], r["coordsys"] == "planetary", part, deep)
     for sig, (detail, _) in part.violations.items():
         print("REPLAY-FAIL", sig, detail[:300])
     return 1 if part.violations else 0
